@@ -42,4 +42,11 @@ theorem src :
     Gen.B1T6.src_b1t8_Decode = Expect.B1T6_src_b1t8_Decode :=
   ⟨rfl, rfl, rfl, rfl, rfl, rfl⟩
 
+/-- everything else the package declares (imports, constants, types, variables, build constraints and the functions not
+pinned one by one) is unchanged too: no declaration of the modelled packages can change without a tie theorem failing. -/
+theorem rest :
+    Gen.B1T6.rest_b1t6 = Expect.B1T6_rest_b1t6 ∧
+    Gen.B1T6.rest_b1t8 = Expect.B1T6_rest_b1t8 :=
+  ⟨rfl, rfl⟩
+
 end Iota.Tie.C14
